@@ -5,6 +5,7 @@ import CosetProofs.Ties.Budget.Context
 import CosetProofs.Ties.Compare.Common
 import CosetProofs.Ties.Compare.Context
 import CosetProofs.Ties.Compare.Cwt
+import CosetProofs.Ties.IanaTables
 namespace Coset.Props.C18
 
 /-! ### ties to the source text (regenerated on every run, compared in the kernel with the transcribed tree) -/
@@ -25,5 +26,10 @@ theorem tie_compare_cwt : Coset.Ties.compareCovered "cwt" Coset.Gen.decisionBudg
 #print axioms tie_compare_common
 #print axioms tie_compare_context
 #print axioms tie_compare_cwt
+
+/-- the registry tables the streams of this property build values from (by name) are the IANA assignments. -/
+theorem tie_iana_tables : Coset.Ties.IanaTablesOk := Coset.Ties.iana_tables
+
+#print axioms tie_iana_tables
 
 end Coset.Props.C18
